@@ -28,7 +28,7 @@ def xfer(kind, payload=b"hello\r\nworld", main=150, comp=226, setup="E"):
 
 def gen(ctx):
     rng = ctx["rng"]; tier = ctx["tier"]
-    files = [(b"keep.txt", b"precious"), (b"data.bin", bytes(range(256)) * 40), (b"sub", None)]
+    files = [(b"keep.txt", b"precious"), (b"data.bin", bytes(range(256)) * 40), (b"sub", None), (b"sub/remote.bin", b"inside the directory"), (b"sub/keep.txt", b"also precious")]
     # every verb while disconnected, with 0..3 arguments
     for v in VERBS:
         for nargs in range(0, 4):
@@ -46,11 +46,17 @@ def gen(ctx):
             yield scenario(groups, files, OPEN + [l, b"extra1", b"extra2", b"noop", b"exit"])
     ctx["scopes"].append("all 27 verbs x 0..3 arguments, disconnected and after login")
     # get: existing file, directory, over-long names, path-like names, refused download, successful download
-    for loc in (b"keep.txt", b"sub", LONG, VERYLONG, b"nodir/x", b"new.bin", b"", b"a b"):
+    for loc in (b"keep.txt", b"sub", b".", b"..", b"sub/remote.bin", LONG, VERYLONG, b"nodir/x", b"new.bin", b"", b"a b"):
         for main in (150, 550, 450):
             groups = LOGIN + xfer("get", main=main) + [R(b"200 noop"), R(b"221 bye")]
             yield scenario(groups, files, OPEN + [b"get remote.bin \"" + loc + b"\"", b"noop", b"exit"])
             yield scenario(groups, files, OPEN + [b"get \"" + loc + b"\"", b"noop", b"exit"])
+    # a directory as destination, holding a file named like the remote one (with and without a path in the remote name)
+    for rem in (b"remote.bin", b"pub/remote.bin", b"keep.txt", b"/abs/keep.txt"):
+        for loc in (b"sub", b"."):
+            for main in (150, 550):
+                groups = LOGIN + xfer("get", main=main) + [R(b"200 noop"), R(b"221 bye")]
+                yield scenario(groups, files, OPEN + [b"get " + rem + b" " + loc, b"noop", b"exit"])
     for comp in (226, 451, 552):
         groups = LOGIN + xfer("get", comp=comp) + [R(b"200 noop"), R(b"221 bye")]
         yield scenario(groups, files, OPEN + [b"get remote.bin fresh.bin", b"noop", b"exit"])
@@ -95,7 +101,7 @@ def gen(ctx):
                 groups += LOGIN
                 continue
             nargs = rng.below(3)
-            args = [rng.choice([b"keep.txt", b"new.txt", b"\"a b\"", b"sub", b"x/y", LONG[:rng.range(250, 300)], b"\"q\\\"uote\"", b"data.bin"]) for _ in range(nargs)]
+            args = [rng.choice([b"keep.txt", b"new.txt", b"\"a b\"", b"sub", b"x/y", b".", b"sub/keep.txt", LONG[:rng.range(250, 300)], b"\"q\\\"uote\"", b"data.bin"]) for _ in range(nargs)]
             v2 = "".join(c.upper() if rng.chance(1, 4) else c for c in v)
             lines.append((v2 + " " + b" ".join(args).decode("latin-1")).strip().encode("latin-1"))
             if v in ("get", "ls"):
